@@ -19,8 +19,10 @@ TABLE_GRAMMARS = {"anbn": "ll_anbn", "k2": "ll_k2", "k3": "ll_k3", "unite": "ll_
 TAB_HARNESSES = [H(M + "c08_tab_" + k, "every lookahead automaton that the freshly built parol generates for grammars/%s.par (concrete table), 4 symbolic tokens (EOI or 5..=16)" % g,
                    F, stubs=STUBS, assumes=[STREAM], timeout=1800) for k, g in TABLE_GRAMMARS.items()]
 SYM_HARNESSES = [
+    H(M + "c08_eval_symbolic_table_small", "symbolic table: <= 4 transitions, <= 4 states, automaton k <= 2, stream k <= 3, 4 symbolic u16 tokens",
+      F, stubs=STUBS, assumes=[CONTRACT, STREAM], timeout=3600, tiers=("quick",)),
     H(M + "c08_eval_symbolic_table", "symbolic table: <= 6 transitions, <= 5 states, automaton k <= 3, stream k <= 3, 4 symbolic u16 tokens",
-      F, stubs=STUBS, assumes=[CONTRACT, STREAM], timeout=3600),
+      F, stubs=STUBS, assumes=[CONTRACT, STREAM], timeout=5400, tiers=("thorough",)),
     H(M + "c08_twin_must_fail", "vacuity twin", F, expect="fail", stubs=STUBS),
 ]
 
@@ -114,6 +116,8 @@ def replayer(h, hr, target_dir, package):
         src, vecs, out = kani.concrete_values(CRATE, h.name, target_dir)
     if not vecs:
         return None, {"error": "no concrete values", "tail": out[-1500:]}
+    if "symbolic_table_small" in h.name or "symbolic_table" in h.name:
+        pass
     if "c08_tab_" in h.name:
         from engine_g.rs_tables import RsTables
         from lib import coretables
